@@ -5,7 +5,7 @@ PROP = dict(
     extract=["bopomofo", "syllable"],
     lean_targets=["Chewing.Props.C19"],
     runs=[dict(bin="legacy", timeout=900)],
-    scope=fn_scope("loader start", "loader cstart", "loader learn"),
+    scope=fn_scope("loader start", "loader cstart", "loader learn", "loader encbin"),
     level="proof",
     exhaustive=False,
     rule="one evaluation = one start-up (UserDictionaryLoader::load in-process, chewing_new2 in a child process) or one "
